@@ -72,6 +72,21 @@ def instances(tier, rng):
             for st, en in (([], []), ([rng.choice(u["nodes"])], []), ([], [rng.choice(u["nodes"])])):
                 subs.append({"kind": "dag" if kind == "dag" else "digraph", "nodes": u["nodes"], "edges": u["edges"],
                              "starts": st, "ends": en, "ops": ops})
+    # larger seeded random cyclic digraphs (5-6 nodes): parallel exits / entries of an SCC next to competing branches;
+    # every pair of ignored edges is queried
+    import itertools
+    for _ in range(25 if quick else 150):
+        u = C.random_cyclic(rng, rng.choice([5, 5, 6]), rng.choice([6, 7, 8]))
+        if u is None:
+            continue
+        E = [list(e) for e in u["edges"]]
+        pairs = list(itertools.combinations(E, 2))
+        ops = [["width", []]] + [["width", [e]] for e in E] + [["width", list(p)] for p in (pairs if len(pairs) <= 28 else rng.sample(pairs, 28))]
+        subs.append({"kind": "digraph", "nodes": u["nodes"], "edges": u["edges"], "starts": [], "ends": [], "ops": ops})
+        for p in rng.sample(pairs, min(4, len(pairs))):
+            r = cover_rec(u, "MinPathCoverCycles", ign=[list(x) for x in p])
+            r["expect_solved"] = True
+            insts.append(r)
     C.with_ids(insts)
     C.with_ids(kcov, start=len(insts) + 1)
     C.with_ids(subs, start=len(insts) + len(kcov) + 1)
